@@ -371,7 +371,7 @@ fn check_concat(ctx: &mut Ctx, parts: &[(u8, usize, Vec<usize>)]) -> bool {
 
 pub fn run(ctx: &mut Ctx) {
     let quick = ctx.quick();
-    let max_len = if quick { 3 } else { 4 };
+    let max_len = if quick { 3 } else { 5 };
     let mut idx = 0u64;
     let mut bad = 0;
     for version in 0..2u8 {
@@ -405,7 +405,7 @@ pub fn run(ctx: &mut Ctx) {
         }
     }
     // ---- random longer sequences (length 4..5, incl. the 64 KiB body) and concatenations of 2..8
-    let n_rand = ctx.budget(30_000, 1_500_000) / ctx.nshards;
+    let n_rand = ctx.budget(30_000, 6_000_000) / ctx.nshards;
     let mut rng: Rng = ctx.rng.fork(0xC05);
     let rand_resp = |rng: &mut Rng| -> (u8, usize, Vec<usize>) {
         let len = rng.range(0, 5);
